@@ -7,7 +7,7 @@ Q_ASYNC = 195840   # 2^8 * 3^2 * 5 * 17: every ramp increment of the model const
 
 PREDICATES = {
     "C03": ["C03_CallOk"],
-    "C04": ["C04_Bounds", "C04_Consumed", "C04_Written"],
+    "C04": ["C04_Bounds", "C04_Consumed", "C04_Written", "C04_Allocate"],
     "C06": ["C06_Increasing", "C06_StepInRange", "C06_RampMonotone", "C06_Supplied"],
     "C07": ["C07_NoDrift", "C07_FftExact", "C07_FftBlock"],
     "C09": ["C09_NoHeap"],
@@ -102,6 +102,11 @@ def gen_scripts(prop, tier, rng):
             for kind in gen.KINDS:
                 S.append(gen.valid_history(rng, kind, 25))
                 S.append(gen.valid_history(rng, kind, 20, small=True))
+        if prop == "C04":
+            # input_buffer_allocate / output_buffer_allocate at arbitrary history points
+            for ops in S:
+                for k in sorted(rng.sample(range(1, len(ops) + 1), min(3, len(ops))), reverse=True):
+                    ops.insert(k, {"op": "alloc", "id": 0})
         # real kernels (dispatch and each explicit kernel) on noise: the kernels' own asserts
         for _ in range(n):
             for kind in ("SincFixedIn", "SincFixedOut"):
